@@ -53,6 +53,7 @@ type Contract struct {
 	CallsFn   map[string]string // funcparam -> "atmostonce" etc (higher order)
 	FuncParams map[string]*Contract // contracts of function-typed parameters
 	GhostSets  []GhostSet
+	Unreachable []string // names of return covers that are legitimately dead, e.g. return@1
 }
 
 type SpecFn struct {
@@ -133,7 +134,7 @@ func newContractSet() *ContractSet {
 }
 
 var clauseKw = map[string]bool{"props": true, "tier": true, "requires": true, "ensures": true, "modifies": true, "loop": true,
-	"panics": true, "inline": true, "pure": true, "assumes": true, "universe": true, "fresh": true, "params": true, "note": true, "funcparam": true, "ghostset": true, "rangeloop": true}
+	"panics": true, "inline": true, "pure": true, "assumes": true, "universe": true, "fresh": true, "params": true, "note": true, "funcparam": true, "ghostset": true, "rangeloop": true, "unreachable": true}
 
 var topKw = map[string]bool{"changhost": true, "lockonly": true, "lockinv": true, "lockguar": true, "ufunc": true, "smtaxiom": true, "func": true, "trusted": true, "spec": true, "ghost": true, "lemma": true, "axiom": true, "purepkg": true}
 
@@ -421,6 +422,8 @@ func (cs *ContractSet) parseFile(fset *token.FileSet, f *ast.File, pkgPath strin
 				cur.Params = strings.Fields(strings.ReplaceAll(it.rest, ",", " "))
 			case "note":
 				cur.Notes = append(cur.Notes, it.rest)
+			case "unreachable":
+				cur.Unreachable = append(cur.Unreachable, strings.Fields(it.rest)...)
 			case "ghostset":
 				// ghostset unlock|return VAR := expr
 				fs := strings.Fields(it.rest)
